@@ -36,7 +36,7 @@ VIOLATIONS = [
     ("undeclared_q = 1;", "block"), ("break;", "block"), ("continue;", "block"), ("case 1: ;", "block"), ("default: ;", "block"), ("int z%d = undeclared_q + 1;", "block"),
     ("return undeclared_q;", "block"), ("_Static_assert(0, \"in block\");", "block"), ("1 = 2;"[:0] or "int z%d z2;", "block"), ("goto ;", "block"),
     ("switch (1) { case 1: case 1: ; }", "block"), ("int z%d = *1;", "block"), ("struct nosuch_b z%d;", "block"), ("if (1 {}", "block"), ("z_undecl();", "block"),
-    ("int z%d = sizeof(int[);", "block"), ("void zv%d;", "block"), ("int z%d = 1 +* ;"[:0] or "(void)undeclared_q;", "block"),
+    ("int z%d = sizeof(int[);", "block"), ("void zv%d;", "block"), ("@macro-arity", "file"), ("@macro-arity", "block"), ("@macro-arity", "block"), ("int z%d = 1 +* ;"[:0] or "(void)undeclared_q;", "block"),
 ]
 
 FILLER_FILE = ["int f%d = %d;", "static long g%d = %d;", "int h%d(void) { return %d; }", "struct sf%d { int a; char b; };", "typedef int tf%d; tf%d tv%d;"[:0] or "enum { EF%d = %d };",
@@ -141,6 +141,28 @@ def decorated(draw):
     vio, scope = draw(st.sampled_from(VIOLATIONS))
     n = vio.count("%d")
     vio = vio % tuple(uid() for _ in range(n)) if n else vio
+    macro_def_lines = []
+    if vio == "@macro-arity":
+        # a function-like macro invoked with the wrong number of arguments inside another macro's replacement list (written
+        # over one or more spliced lines, possibly in a region a line marker attributes to another file) and expanded later:
+        # the diagnostic belongs to the definition's line(s) or to the line of the use
+        k1 = uid()
+        lines.append("#define ZARI%d(x, y) x" % k1)
+        form = draw(st.integers(0, 2))
+        first_def = len(lines) + 1
+        if form == 0:
+            lines.append("#define ZWRAP%d 1 + ZARI%d(%s)" % (k1, k1, draw(st.sampled_from(["1", "1, 2, 3", ""]))))
+        elif form == 1:
+            lines.append("#define ZWRAP%d 1 + \\" % k1)
+            lines.append("  ZARI%d(1, 2, 3)" % k1)
+        else:
+            lines.append("#define ZWRAP%d \\" % k1)
+            lines.append("  (2 * \\")
+            lines.append("  ZARI%d(4))" % k1)
+        # the line that holds the offending invocation (the last line of the definition)
+        macro_def_lines = [len(lines)]
+        vio = ("int zu%d = ZWRAP%d;" if scope == "file" else "l_acc += ZWRAP%d;") % ((uid(), k1) if scope == "file" else (k1,))
+        labels.add("macro-arity-in-body")
     for _ in range(draw(st.integers(0, 8))):
         decorate(False)
     if scope == "block":
@@ -157,7 +179,7 @@ def decorated(draw):
         labels.add("splice-in-violation")
     else:
         lines.append(vio)
-    vio_lines = list(range(first, len(lines) + 1))
+    vio_lines = list(range(first, len(lines) + 1)) + macro_def_lines
     if scope == "block":
         lines.append("return l_acc; }")
     lines.append("int tail_decl;")
